@@ -95,7 +95,9 @@ Definition exec_exit (fuel s:nat) (ev:evt) : M unit :=
   end.
 
 (* k <> EkPlain means the event reaches the state wrapped in direct_entry_event *)
-Definition exec_entry (fuel s:nat) (ev:evt) (k:ekind) : M unit :=
+(* fwd: does the event the state is entered with convert to an exit point's event (a Kleene row hands over a boost::any,
+   which does not; front::none does not either) *)
+Definition exec_entry_gen (fwd:bool) (fuel s:nat) (ev:evt) (k:ekind) : M unit :=
   match child s with
   | Some co =>
       let body :=
@@ -112,10 +114,12 @@ Definition exec_entry (fuel s:nat) (ev:evt) (k:ekind) : M unit :=
              definition convert into each other (the generated event types do, the machine's initial_event included),
              front::none does not - an exit pseudo state re-entered through history by a completion transition forwards
              nothing *)
-          if negb (Nat.eqb (e_ty ev) EV_NONE) then push_up (Evt ety (e_pay ev)) else ret tt
+          if fwd && negb (Nat.eqb (e_ty ev) EV_NONE) then push_up (Evt ety (e_pay ev)) else ret tt
       | _ => cb KEntry s ev false      (* remove_direct_entry_event_wrapper *)
       end
   end.
+Definition exec_entry := exec_entry_gen true.
+Definition row_converts (x:row) : bool := match r_trig x with TrAny => false | _ => true end.
 
 (* ---- rows ---- *)
 Definition tgt_state (t:target) : option nat :=
@@ -155,7 +159,7 @@ Definition exec_row (fuel r:nat) (x:row) (ev:evt) : M nat :=
           set_act_at r (switch_id (c_pol cf) 1 cur nxt) ;;
           res <- run_action x ev ;;
           set_act_at r (switch_id (c_pol cf) 2 cur nxt) ;;
-          exec_entry fuel nxt ev (tgt_ekind (r_tgt x)) ;;
+          exec_entry_gen (row_converts x) fuel nxt ev (tgt_ekind (r_tgt x)) ;;
           set_act_at r (switch_id (c_pol cf) 3 cur nxt) ;;
           ret res
   end.
